@@ -80,6 +80,49 @@ def _remap_term(t, lofs, bofs, ret=None):
         t["succ"] = [b + bofs for b in t["succ"]]
 
 
+import re as _re
+
+
+def _subst_types(obj, mapping, rx):
+    """instantiate generic type parameters in a copied callee fragment:
+    type dicts {"s": "T", ..} become the call site's type argument, type
+    strings mentioning T as a whole word are rewritten textually"""
+    if isinstance(obj, list):
+        for i, x in enumerate(obj):
+            if isinstance(x, dict) and x.get("s") in mapping and set(x.keys()) <= {"s", "k"}:
+                obj[i] = copy.deepcopy(mapping[x["s"]])
+            else:
+                _subst_types(x, mapping, rx)
+        return
+    if not isinstance(obj, dict):
+        return
+    for k, v in list(obj.items()):
+        if isinstance(v, dict) and v.get("s") in mapping and v.get("k") == "param":
+            obj[k] = copy.deepcopy(mapping[v["s"]])
+        elif isinstance(v, str) and k in ("s", "full", "ty", "fn") and rx.search(v):
+            obj[k] = rx.sub(lambda m: mapping[m.group(0)]["s"], v)
+        else:
+            _subst_types(v, mapping, rx)
+
+
+def _type_mapping(g, t):
+    """generic type parameter name of callee g -> type argument at call site t
+    (only for direct calls: the arguments of a trait-method call belong to the
+    trait's method, not to the impl function that was resolved)"""
+    v = t["func"].get("v") or {}
+    if v.get("resolved") or v.get("trait"):
+        return None
+    names = g.get("generic_types") or []
+    targs = v.get("targs") or []
+    if not names or len(names) != len(targs):
+        return None
+    m = {}
+    for n, a in zip(names, targs):
+        if a.get("s") != n and _re.match(r"^[A-Za-z_][A-Za-z0-9_]*$", n):
+            m[n] = a
+    return m or None
+
+
 def _callee_target(t):
     f = t.get("func", {})
     v = f.get("v") if f.get("k") == "const" else None
@@ -122,6 +165,8 @@ def inline_into(fj, by_path, anchors, stats):
             continue
         lofs = len(body["locals"])
         bofs = len(blocks)
+        tmap = _type_mapping(g, t)
+        trx = _re.compile(r"(?<![A-Za-z0-9_:])(" + "|".join(_re.escape(n) for n in tmap) + r")(?![A-Za-z0-9_])") if tmap else None
         # locals
         for l in gb["locals"]:
             body["locals"].append(copy.deepcopy(l))
@@ -146,7 +191,12 @@ def inline_into(fj, by_path, anchors, stats):
                 nb["term"] = {"k": "goto", "target": cont, "sp": nt.get("sp"), "exp": True}
             else:
                 _remap_term(nt, lofs, bofs, ret)
+            if tmap:
+                _subst_types(nb, tmap, trx)
             blocks.append(nb)
+        if tmap:
+            for l in body["locals"][lofs:]:
+                _subst_types(l, tmap, trx)
         # argument passing
         for i, a in enumerate(t["args"]):
             b["stmts"].append({"k": "assign", "pl": {"l": lofs + 1 + i, "p": []}, "rv": {"rv": "use", "op": copy.deepcopy(a)}, "sp": t.get("sp"), "exp": True})
